@@ -127,6 +127,7 @@ def census():
         depth = 0
         counters = {}
         pending_fn = None
+        tail = ""   # the last non-blank characters before the current line (method chains span lines)
         for ln in code.split("\n"):
             m = re.search(r"\bfn\s+([A-Za-z0-9_]+)", ln)
             if m:
@@ -147,10 +148,11 @@ def census():
                     counters[key] = counters.get(key, 0) + 1
                     # what the site is applied to: the name of the last call before it (`to_str` in
                     # `p.to_str().unwrap()`), independent of variable names and layout
-                    before = re.sub(r"\s+", "", ln[:mm.start()])
+                    before = tail + re.sub(r"\s+", "", ln[:mm.start()])
                     cm = re.search(r"([A-Za-z0-9_]+)(\([^()]*\))?$", before)
                     ctx = cm.group(1) if cm and kind in ("unwrap", "expect") else ""
                     sites.append({"file": rel, "fn": name_here, "kind": kind, "ordinal": counters[key], "ctx": ctx})
+            tail = (tail + re.sub(r"\s+", "", ln))[-200:]
             for kind, rx in STATE_PATTERNS:
                 if rx.search(ln):
                     state.append({"file": rel, "fn": name_here, "kind": kind, "text": ln.strip()[:120]})
@@ -183,21 +185,25 @@ def main():
     now = set(key(s) for s in c["panic_sites"])
     new = sorted(now - known)
     gone = sorted(known - now)
-    # A site that moved to another function of the same file (a helper was split off, a function renamed) is the
-    # same site: pair each new site with a vanished one of the same file, kind and expression text.
+    # A site that moved (a helper was split off, a function renamed, code moved to another file) or whose
+    # `unwrap()` became an `expect("…")` is the same site: pair each new site with a vanished one of the same
+    # kind (unwrap and expect count as one kind) applied to the same call, preferring the same file, then the
+    # same function name, then anywhere.
     ctx_now = {key(s): s.get("ctx") for s in c["panic_sites"]}
+
+    def kc(k):
+        kd = k.split("::")[2].split("#")[0]
+        return "unwrap" if kd == "expect" else kd
     pool = list(gone)
     moved = []
     for k in list(new):
-        f, _, kd = k.split("::")
-        kd = kd.split("#")[0]
-        for g in pool:
-            gf, _, gk = g.split("::")
-            if gf == f and gk.split("#")[0] == kd and table["panic_sites"][g].get("ctx") is not None and table["panic_sites"][g]["ctx"] == ctx_now[k]:
-                pool.remove(g)
-                new.remove(k)
-                moved.append([g, k])
-                break
+        f, fn, _ = k.split("::")
+        cands = [g for g in pool if kc(g) == kc(k) and table["panic_sites"][g].get("ctx") is not None and table["panic_sites"][g]["ctx"] == ctx_now[k]]
+        cands.sort(key=lambda g: (g.split("::")[0] != f, g.split("::")[1] != fn))
+        if cands:
+            pool.remove(cands[0])
+            new.remove(k)
+            moved.append([cands[0], k])
     res = {"new_sites": new, "vanished_sites": gone, "moved_sites": moved,
            "shared_state": c["shared_state"], "expected_shared_state": table.get("shared_state", []),
            "n_sites": len(now)}
